@@ -36,6 +36,8 @@ func main() {
 	switch os.Args[1] {
 	case "hist":
 		famHist(os.Args[2])
+	case "c09":
+		famC09(os.Args[2])
 	default:
 		fmt.Println("unknown family", os.Args[1])
 		os.Exit(2)
